@@ -77,9 +77,7 @@ theorem generated_inverse_spec :
     (∀ s : InverseLogarithmicStretch ℝ, s.inverse = (⟨s.a⟩ : LogarithmicStretch ℝ)) ∧
     (∀ s : InverseHyperbolicSineStretch ℝ, s.inverse = (⟨1 / Real.arsinh (1 / s.a)⟩ : HyperbolicSineStretch ℝ)) ∧
     (∀ s : HyperbolicSineStretch ℝ, s.inverse = (⟨1 / Real.sinh (1 / s.a)⟩ : InverseHyperbolicSineStretch ℝ)) := by
-  refine ⟨?_, ?_, ?_, ?_, ?_, ?_⟩ <;> intro s <;>
-    simp [LinearStretch.inverse, PowerLawStretch.inverse, LogarithmicStretch.inverse,
-      InverseLogarithmicStretch.inverse, InverseHyperbolicSineStretch.inverse, HyperbolicSineStretch.inverse]
+  exact ⟨linear_inverse_eq, power_inverse_eq, log_inverse_eq, invlog_inverse_eq, asinh_inverse_eq, sinh_inverse_eq⟩
 
 /-- the `__post_init__` guards accept exactly the admissible parameters -/
 theorem generated_valid_spec :
@@ -88,9 +86,7 @@ theorem generated_valid_spec :
     (∀ s : InverseLogarithmicStretch ℝ, s.valid = true ↔ 0 < s.a) ∧
     (∀ s : InverseHyperbolicSineStretch ℝ, s.valid = true ↔ 0 < s.a) ∧
     (∀ s : HyperbolicSineStretch ℝ, s.valid = true ↔ 0 < s.a) := by
-  refine ⟨?_, ?_, ?_, ?_, ?_⟩ <;> intro s <;>
-    simp [PowerLawStretch.valid, LogarithmicStretch.valid, InverseLogarithmicStretch.valid,
-      InverseHyperbolicSineStretch.valid, HyperbolicSineStretch.valid, leb_false_iff]
+  exact ⟨power_valid_iff, log_valid_iff, invlog_valid_iff, asinh_valid_iff, sinh_valid_iff⟩
 
 /-! ## 3. every stretch: [0,1] → [0,1], 0 ↦ 0, 1 ↦ 1, monotone, `S (S.inverse y) = y` -/
 
@@ -103,7 +99,7 @@ structure StretchLaw (S Sinv : ℝ → ℝ) : Prop where
   inverse_pair : ∀ y, 0 ≤ y → y ≤ 1 → S (Sinv y) = y
 
 theorem power_stretch_law (s : PowerLawStretch ℝ) (h : 0 < s.power) : StretchLaw s.call s.inverse.call := by
-  have hinv : s.inverse.power = 1 / s.power := by simp [PowerLawStretch.inverse]
+  have hinv : s.inverse.power = 1 / s.power := by rw [power_inverse_eq]
   refine ⟨?_, ?_, ?_, ?_, ?_⟩
   · intro x h0 h1; rw [power_call_eq]; exact powerS_mem h h0 h1
   · rw [power_call_eq]; exact powerS_zero h
@@ -112,7 +108,7 @@ theorem power_stretch_law (s : PowerLawStretch ℝ) (h : 0 < s.power) : StretchL
   · intro y h0 h1; rw [power_call_eq, power_call_eq, hinv]; exact powerS_inverse h h0 h1
 
 theorem log_stretch_law (s : LogarithmicStretch ℝ) (h : 0 < s.a) : StretchLaw s.call s.inverse.call := by
-  have hinv : s.inverse.a = s.a := by simp [LogarithmicStretch.inverse]
+  have hinv : s.inverse.a = s.a := by rw [log_inverse_eq]
   refine ⟨?_, ?_, ?_, ?_, ?_⟩
   · intro x _ _; rw [log_call_eq]; exact logS_mem h x
   · rw [log_call_eq]; exact logS_zero _
@@ -121,7 +117,7 @@ theorem log_stretch_law (s : LogarithmicStretch ℝ) (h : 0 < s.a) : StretchLaw 
   · intro y h0 h1; rw [log_call_eq, invlog_call_eq, hinv]; exact logS_invlogS h h0 h1
 
 theorem invlog_stretch_law (s : InverseLogarithmicStretch ℝ) (h : 0 < s.a) : StretchLaw s.call s.inverse.call := by
-  have hinv : s.inverse.a = s.a := by simp [InverseLogarithmicStretch.inverse]
+  have hinv : s.inverse.a = s.a := by rw [invlog_inverse_eq]
   refine ⟨?_, ?_, ?_, ?_, ?_⟩
   · intro x _ _; rw [invlog_call_eq]; exact invlogS_mem h x
   · rw [invlog_call_eq]; exact invlogS_zero _
@@ -131,7 +127,7 @@ theorem invlog_stretch_law (s : InverseLogarithmicStretch ℝ) (h : 0 < s.a) : S
 
 /-- asinh stretch with the inverse it declares, `HyperbolicSineStretch(1 / asinh(1 / a))` -/
 theorem asinh_stretch_law (s : InverseHyperbolicSineStretch ℝ) (h : 0 < s.a) : StretchLaw s.call s.inverse.call := by
-  have hinv : s.inverse.a = 1 / Real.arsinh (1 / s.a) := by simp [InverseHyperbolicSineStretch.inverse]
+  have hinv : s.inverse.a = 1 / Real.arsinh (1 / s.a) := by rw [asinh_inverse_eq]
   refine ⟨?_, ?_, ?_, ?_, ?_⟩
   · intro x _ _; rw [asinh_call_eq]; exact asinhS_mem h x
   · rw [asinh_call_eq]; exact asinhS_zero h
@@ -141,7 +137,7 @@ theorem asinh_stretch_law (s : InverseHyperbolicSineStretch ℝ) (h : 0 < s.a) :
 
 /-- sinh stretch with the inverse it declares, `InverseHyperbolicSineStretch(1 / sinh(1 / a))` -/
 theorem sinh_stretch_law (s : HyperbolicSineStretch ℝ) (h : 0 < s.a) : StretchLaw s.call s.inverse.call := by
-  have hinv : s.inverse.a = 1 / Real.sinh (1 / s.a) := by simp [HyperbolicSineStretch.inverse]
+  have hinv : s.inverse.a = 1 / Real.sinh (1 / s.a) := by rw [sinh_inverse_eq]
   refine ⟨?_, ?_, ?_, ?_, ?_⟩
   · intro x _ _; rw [sinh_call_eq]; exact sinhS_mem h x
   · rw [sinh_call_eq]; exact sinhS_zero h
@@ -154,9 +150,9 @@ and so is its declared inverse `LinearStretch(1/1, -0/1)` -/
 theorem linear_default_stretch_law :
     StretchLaw (LinearStretch.default : LinearStretch ℝ).call (LinearStretch.default : LinearStretch ℝ).inverse.call := by
   have hc : ∀ x : ℝ, (LinearStretch.default : LinearStretch ℝ).call x = x := by
-    intro x; rw [linear_call_eq]; simp [LinearStretch.default, linearS]
+    intro x; rw [linear_call_eq, linear_default_eq]; simp [linearS]
   have hi : ∀ x : ℝ, (LinearStretch.default : LinearStretch ℝ).inverse.call x = x := by
-    intro x; rw [linear_call_eq]; simp [LinearStretch.default, LinearStretch.inverse, linearS]
+    intro x; rw [linear_call_eq, linear_inverse_eq, linear_default_eq]; simp [linearS]
   refine ⟨?_, ?_, ?_, ?_, ?_⟩
   · intro x h0 h1; rw [hc]; exact ⟨h0, h1⟩
   · rw [hc]
@@ -171,8 +167,8 @@ theorem linear_general_inverse_counterexample :
     let s : LinearStretch ℝ := ⟨1 / 2, 0⟩
     s.call (s.inverse.call 1) ≠ 1 := by
   intro s
-  rw [linear_call_eq, linear_call_eq]
-  simp only [s, LinearStretch.inverse, linearS]
+  rw [linear_call_eq, linear_call_eq, linear_inverse_eq]
+  simp only [s, linearS]
   norm_num [clip01]
 
 /-- all six classes at once, for the stretch a `CustomNormalization` (or its `inverse`) holds -/
@@ -181,7 +177,7 @@ theorem stretch_law (s : Stretch ℝ) (h : Admissible s) : StretchLaw s.call s.i
   | linear t =>
     obtain ⟨h1, h2⟩ := h
     have : t = LinearStretch.default := by
-      cases t; simp_all [LinearStretch.default]
+      rw [linear_default_eq]; cases t; simp_all
     subst this
     exact linear_default_stretch_law
   | power t => exact power_stretch_law t h
@@ -206,15 +202,15 @@ theorem init_admissible (c : Config ℝ) (n : Norm.Norm ℝ) (h : Norm.init c = 
       unfold selectStretch at hs
       split at hs
       · cases hs
-        simpa [Stretch.valid, PowerLawStretch.valid, Admissible, leb_false_iff] using hv
+        simpa [Stretch.valid, power_valid_iff, Admissible] using hv
       · split at hs
-        · cases hs; simp [Admissible, LinearStretch.default]
+        · cases hs; simp [Admissible, linear_default_eq]
         · split at hs
           · cases hs
-            simpa [Stretch.valid, LogarithmicStretch.valid, Admissible, leb_false_iff] using hv
+            simpa [Stretch.valid, log_valid_iff, Admissible] using hv
           · split at hs
             · cases hs
-              simpa [Stretch.valid, InverseHyperbolicSineStretch.valid, Admissible, leb_false_iff] using hv
+              simpa [Stretch.valid, asinh_valid_iff, Admissible] using hv
             · cases hs
     · cases h
 
@@ -450,16 +446,16 @@ theorem admissible_inverse (s : Stretch ℝ) (h : Admissible s) : Admissible s.i
   cases s with
   | linear t =>
     obtain ⟨h1, h2⟩ := h
-    simp [Stretch.inverse, Admissible, LinearStretch.inverse, h1, h2]
-  | power t => simpa [Stretch.inverse, Admissible, PowerLawStretch.inverse] using h
-  | log t => simpa [Stretch.inverse, Admissible, LogarithmicStretch.inverse] using h
-  | invlog t => simpa [Stretch.inverse, Admissible, InverseLogarithmicStretch.inverse] using h
+    simp [Stretch.inverse, Admissible, linear_inverse_eq, h1, h2]
+  | power t => simpa [Stretch.inverse, Admissible, power_inverse_eq] using h
+  | log t => simpa [Stretch.inverse, Admissible, log_inverse_eq] using h
+  | invlog t => simpa [Stretch.inverse, Admissible, invlog_inverse_eq] using h
   | asinh t =>
     have := arsinh_inv_pos (a := t.a) h
-    simpa [Stretch.inverse, Admissible, InverseHyperbolicSineStretch.inverse] using this
+    simpa [Stretch.inverse, Admissible, asinh_inverse_eq] using this
   | sinh t =>
     have := sinh_inv_pos (a := t.a) h
-    simpa [Stretch.inverse, Admissible, HyperbolicSineStretch.inverse] using this
+    simpa [Stretch.inverse, Admissible, sinh_inverse_eq] using this
 
 /-- declaring the inverse twice gives the stretch back -/
 theorem inverse_inverse (s : Stretch ℝ) (h : Admissible s) : s.inverse.inverse = s := by
@@ -467,16 +463,16 @@ theorem inverse_inverse (s : Stretch ℝ) (h : Admissible s) : s.inverse.inverse
   | linear t =>
     obtain ⟨h1, h2⟩ := h
     cases t
-    simp_all [Stretch.inverse, LinearStretch.inverse]
-  | power t => cases t; simp [Stretch.inverse, PowerLawStretch.inverse]
-  | log t => cases t; simp [Stretch.inverse, LogarithmicStretch.inverse, InverseLogarithmicStretch.inverse]
-  | invlog t => cases t; simp [Stretch.inverse, LogarithmicStretch.inverse, InverseLogarithmicStretch.inverse]
+    simp_all [Stretch.inverse, linear_inverse_eq]
+  | power t => cases t; simp [Stretch.inverse, power_inverse_eq]
+  | log t => cases t; simp [Stretch.inverse, log_inverse_eq, invlog_inverse_eq]
+  | invlog t => cases t; simp [Stretch.inverse, log_inverse_eq, invlog_inverse_eq]
   | asinh t =>
     cases t
-    simp [Stretch.inverse, InverseHyperbolicSineStretch.inverse, HyperbolicSineStretch.inverse, Real.sinh_arsinh]
+    simp [Stretch.inverse, asinh_inverse_eq, sinh_inverse_eq, Real.sinh_arsinh]
   | sinh t =>
     cases t
-    simp [Stretch.inverse, InverseHyperbolicSineStretch.inverse, HyperbolicSineStretch.inverse, Real.arsinh_sinh]
+    simp [Stretch.inverse, asinh_inverse_eq, sinh_inverse_eq, Real.arsinh_sinh]
 
 /-- hence the declared inverse is a two-sided inverse on [0, 1] -/
 theorem stretch_inverse_left (s : Stretch ℝ) (h : Admissible s) (u : ℝ) (h0 : 0 ≤ u) (h1 : u ≤ 1) :
@@ -492,12 +488,12 @@ theorem norm_inverse_frozen (n : Norm.Norm ℝ) (lo hi : ℝ) (hi' : n.interval 
   have hv : n.stretch.inverse.valid = true := by
     have ha := admissible_inverse _ hadm
     cases hs : n.stretch.inverse with
-    | linear t => simp [Stretch.valid, LinearStretch.valid]
-    | power t => rw [hs] at ha; simpa [Stretch.valid, PowerLawStretch.valid, leb_false_iff, Admissible] using ha
-    | log t => rw [hs] at ha; simpa [Stretch.valid, LogarithmicStretch.valid, leb_false_iff, Admissible] using ha
-    | invlog t => rw [hs] at ha; simpa [Stretch.valid, InverseLogarithmicStretch.valid, leb_false_iff, Admissible] using ha
-    | asinh t => rw [hs] at ha; simpa [Stretch.valid, InverseHyperbolicSineStretch.valid, leb_false_iff, Admissible] using ha
-    | sinh t => rw [hs] at ha; simpa [Stretch.valid, HyperbolicSineStretch.valid, leb_false_iff, Admissible] using ha
+    | linear t => simp [Stretch.valid, linear_valid]
+    | power t => rw [hs] at ha; simpa [Stretch.valid, power_valid_iff, Admissible] using ha
+    | log t => rw [hs] at ha; simpa [Stretch.valid, log_valid_iff, Admissible] using ha
+    | invlog t => rw [hs] at ha; simpa [Stretch.valid, invlog_valid_iff, Admissible] using ha
+    | asinh t => rw [hs] at ha; simpa [Stretch.valid, asinh_valid_iff, Admissible] using ha
+    | sinh t => rw [hs] at ha; simpa [Stretch.valid, sinh_valid_iff, Admissible] using ha
   unfold Norm.inverse
   simp [hv, hi', Interval.getLimits, manualLimits, List.map_map, Function.comp_def, bind, Except.bind, pure, Except.pure]
 
@@ -541,8 +537,7 @@ theorem presets_admissible :
     simp only [presets, List.mem_cons, List.not_mem_nil, or_false] at hp
     rcases hp with rfl | rfl | rfl | rfl | rfl | rfl | rfl | rfl | rfl | rfl <;>
       simp [Norm.init, selectInterval, selectStretch, Config.default, fne_iff, Stretch.valid,
-        LinearStretch.valid, PowerLawStretch.valid, LogarithmicStretch.valid,
-        InverseHyperbolicSineStretch.valid, leb_false_iff]
+        linear_valid, power_valid_iff, log_valid_iff, asinh_valid_iff]
   obtain ⟨n, hn⟩ := hok
   exact ⟨n, hn, init_admissible _ _ hn⟩
 
@@ -553,7 +548,7 @@ theorem presets_count : (presets : List (String × Config ℝ)).length = 10 := r
 example : Admissible (.asinh ⟨(1 / 10 : ℝ)⟩) := by simp [Admissible]
 example : Admissible (.power ⟨(1 / 2 : ℝ)⟩) := by simp [Admissible]
 example : Admissible (.log ⟨(1000 : ℝ)⟩) := by simp [Admissible]
-example : Admissible (.linear (LinearStretch.default : LinearStretch ℝ)) := by simp [Admissible, LinearStretch.default]
+example : Admissible (.linear (LinearStretch.default : LinearStretch ℝ)) := by simp [Admissible, linear_default_eq]
 example : ∃ vmin vmax : ℝ, vmin < vmax := ⟨0, 1, by norm_num⟩
 /-- a concrete array with a NaN, an inf and two distinct finite values: the automatic manual
 limits exist and are strictly ordered -/
